@@ -33,6 +33,9 @@ def run(ctx):
     ctx.rule('R20c', 'pos_to_lineno_colno: i = bisect_right(T, pos) - 1; col = pos - T[i]; '
                      'first_line_column_offset iff raw i == 0 else column_offset; line = i + '
                      'line_number_offset; returned as (line, col) / {lineno, colno}', 6)
+    ctx.rule('R20d', 'the line-start table is 0 followed by (index of each newline) + 1 in increasing order: '
+                     'every search for the next newline starts at the previous line start, no line is '
+                     'skipped; the table is built from the string given to the calculator', 3)
     ctx.rule('G9', 'a position value (pos, epos, pos_end, ...) is never tested by truthiness: 0 is '
                    'a valid position and must not be treated like None', 1)
 
@@ -43,6 +46,7 @@ def run(ctx):
     if f is None or init is None:
         raise AnalysisError('anchor vanished: LineNumbersCalculator.pos_to_lineno_colno/__init__')
     _r20c(ctx, u, f)
+    _r20d(ctx, u, init)
 
     # ------------------------------------------------------------ R20b
     names = ('line_number_offset', 'first_line_column_offset', 'column_offset')
@@ -220,6 +224,89 @@ def _first_line_test(t, raw_nf):
                 return -1
             return 0
     return None
+
+
+def _r20d(ctx, u, init):
+    """shape of the line-start table generator (decided on substituted yields per structural path)"""
+    table = None
+    for st in iter_own(init):
+        if isinstance(st, ast.Assign) and is_self_attr(st.targets[0]) and isinstance(st.value, ast.Call):
+            inner = st.value
+            if call_name(inner) in ('list', 'tuple', 'sorted') and inner.args and isinstance(inner.args[0], ast.Call):
+                table = (st, inner.args[0])
+    gens = dict((g.name, g) for g in ast.walk(init) if isinstance(g, ast.FunctionDef) and g is not init)
+    gens.update((q, g) for q, g in u.functions.items() if '.' not in q)
+    if table is None or call_name(table[1]) not in gens:
+        ctx.unknown('R20d', u, init, 'line-start table is not built as list(<generator>(s))',
+                    construct='line-start table')
+        return
+    st, gcall = table
+    sparam = init.args.args[1].arg
+    ctx.decide('R20d', len(gcall.args) == 1 and unparse(gcall.args[0]) == sparam, u, st,
+               'table built from the calculator\'s own string', 'the line-start table is built from %s, not '
+               'from the string given to the calculator' % short(gcall), construct='line-start table: source')
+    g = gens[call_name(gcall)]
+    xp = g.args.args[0].arg
+    loops = [l for l in g.body if isinstance(l, ast.While)]
+    if len(loops) != 1:
+        ctx.unknown('R20d', u, g, 'generator is not one while loop', construct='line-start generator')
+        return
+    loop = loops[0]
+    w = symex.Walker(is_sink=lambda n: True, sink_types=(ast.Yield,), want_exits=True, pure=('find', 'index'))
+    pre = w.run_block(g.body[:g.body.index(loop)])
+    first = [c for c in pre if c.kind == 'call']
+    ok0 = len(first) == 1 and isinstance(first[0].sub.value, ast.Constant) and first[0].sub.value.value == 0
+    ctx.decide('R20d', ok0, u, first[0].node if first else g, 'the first line starts at 0',
+               'the generator does not start the table with position 0', construct='line-start generator: first entry')
+    ends = [c for c in pre if c.kind == 'end']
+    if len(ends) != 1:
+        ctx.unknown('R20d', u, g, 'initialisation not straight-line', construct='line-start generator')
+        return
+    # loop variable: the name the yields mention
+    body = symex.Walker(is_sink=lambda n: True, sink_types=(ast.Yield,), want_exits=True,
+                        pure=('find', 'index')).run_block(loop.body)
+    ys = [c for c in body if c.kind == 'call']
+    if not ys:
+        ctx.refuted('R20d', u, loop, 'the loop yields no line start', construct='line-start generator: loop')
+        return
+    kv = None
+    bad = None
+    for c in ys:
+        v = c.sub.value
+        # expected: <x>.find('\n', K) + 1 with K the loop variable at the head of the iteration
+        ok = isinstance(v, ast.BinOp) and isinstance(v.op, ast.Add) and isinstance(v.right, ast.Constant) \
+            and v.right.value == 1 and isinstance(v.left, ast.Call) and call_name(v.left) in ('find', 'index') \
+            and unparse(call_recv(v.left)) == xp and len(v.left.args) == 2 and \
+            isinstance(v.left.args[0], ast.Constant) and v.left.args[0].value == '\n' and \
+            isinstance(v.left.args[1], ast.Name)
+        if not ok:
+            bad = 'yields %s, not %s.find(NL, <previous line start>) + 1' % (short(v, 70), xp)
+            break
+        kv = v.left.args[1].id
+        # not-found handled before the yield
+        facts = set()
+        for t_, pol in c.conds:
+            for a, ap in symex._atoms(t_, pol):
+                facts.add((unparse(a), ap))
+        nf = unparse(v.left)
+        if not ((nf + ' == -1', False) in facts or (nf + ' != -1', True) in facts or
+                (nf + ' < 0', False) in facts or (nf + ' >= 0', True) in facts):
+            bad = 'yields without having excluded the not-found result -1'
+            break
+    if bad is None:
+        # the loop variable at the end of the iteration is the value just yielded
+        for c in [c for c in body if c.kind in ('end', 'continue')]:
+            nv = c.env.get(kv)
+            if nv is None or unparse(nv) not in [unparse(y.sub.value) for y in ys]:
+                bad = 'the next search starts at %s, not at the line start just found' % (
+                    short(nv) if nv is not None else kv)
+        e0 = ends[0].env.get(kv)
+        if not (isinstance(e0, ast.Constant) and e0.value == 0):
+            bad = bad or 'the first search does not start at 0'
+    ctx.decide('R20d', bad is None, u, loop,
+               'each entry is find(NL, previous line start) + 1; the search continues from that entry',
+               'line-start generator: %s: a line is skipped or counted twice, every later position is '
+               'reported on the wrong line' % bad, construct='line-start generator: loop')
 
 
 def _r20c(ctx, u, f):
